@@ -68,37 +68,167 @@ def _memoize_order(ck, R):
           "result data is (re)written after the memento was published", mz.where())
 
 
+LINK_PATH = "_get_non_versioned_link_path"
+OBJ_PATH = "_get_path_versioned"
+
+
+def _strip_path_wrappers(e):
+    """str(p) / Path(p) / os.fspath(p) -> p"""
+    while isinstance(e, ast.Call) and A.call_attr(e) in ("str", "Path", "fspath", "PurePath") and len(e.args) == 1 and not e.keywords:
+        e = e.args[0]
+    return e
+
+
+def open_path(call):
+    """The path expression of an `open(path, ...)` / `path.open(...)` call."""
+    if isinstance(call.func, ast.Attribute) and not (A.dotted(call.func.value) or "") in ("io", "os", "builtins", "codecs"):
+        return call.func.value
+    return call.args[0] if call.args else A.kwarg(call, "file")
+
+
+def path_role(fa, expr, node_id=None):
+    """'pointer' when the expression IS the mutable link path of a key (the value of the link-path builder,
+    through str()/Path() and temporaries), 'object' when it is the value of the versioned-path builder,
+    otherwise None (e.g. a path merely derived from one of them: a parent directory, a staging name)."""
+    if expr is None:
+        return None
+    ids = [node_id] if node_id is not None else fa.nodes(expr)
+    if not ids:
+        return None
+    roles = set()
+    for i in ids:
+        stack = [(_strip_path_wrappers(expr), i, 8)]
+        while stack:
+            e, n, dep = stack.pop()
+            e = _strip_path_wrappers(e)
+            if isinstance(e, ast.Name) and dep > 0:
+                ds = fa.df.reaching(n, e.id)
+                if ds and all(d.kind in ("assign", "with") and d.value is not None for d in ds):
+                    stack.extend((d.value, d.node, dep - 1) for d in ds)
+                    continue
+            if isinstance(e, ast.Call) and A.call_attr(e) == LINK_PATH:
+                roles.add("pointer")
+            elif isinstance(e, ast.Call) and A.call_attr(e) == OBJ_PATH:
+                roles.add("object")
+            else:
+                roles.add(None)
+    return roles.pop() if len(roles) == 1 else None
+
+
+def write_opens(ck, fa):
+    """Write-mode opens of a function, by what they open: {'pointer': [...], 'object': [...]} ('object' = any
+    write-mode open that is not the pointer: the versioned path itself or a staging name)."""
+    out = {"pointer": [], "object": []}
+    for c in fa.calls("open"):
+        if c in ck.cg.fs_write_sites.get(fa.qual, []) and fa.nodes(c):
+            out["pointer" if path_role(fa, open_path(c), fa.nodes(c)[0]) == "pointer" else "object"].append(c)
+    return out
+
+
+def pointer_writers(ck):
+    """Methods of the filesystem data source that write (or atomically replace) the pointer of a key directly."""
+    cls = ck.repo.cls(FSDS)
+    out = set()
+    for m in cls.methods.values():
+        f = FA(ck, m)
+        if write_opens(ck, f)["pointer"] or _atomic_publications(f):
+            out.add(m.name)
+    return out
+
+
+def _atomic_publications(fa):
+    return [c for c in fa.calls("replace") + fa.calls("rename") if (A.call_dotted(c) or "").startswith("os.") and len(c.args) == 2
+            and fa.nodes(c) and path_role(fa, c.args[1], fa.nodes(c)[0]) == "pointer"]
+
+
+def _with_ancestors(fa, node):
+    out = []
+    n = fa.pm.get(node)
+    while n is not None:
+        if isinstance(n, (ast.With, ast.AsyncWith)):
+            out.append(n)
+        n = fa.pm.get(n)
+    return out
+
+
 def _output_order(ck, R):
     fo = FA(ck, FSDS + ".output")
     mk = [c for c in fo.calls("makedirs")] + [c for c in fo.calls("mkdir")]
-    wopen = [c for c in fo.calls("open") if c in ck.cg.fs_write_sites.get(fo.qual, [])]
-    pub = [c for c in fo.calls("_write_non_versioned_link")]
-    copy = [c for c in fo.calls("copyfileobj")] + [c for c in fo.calls("write")]
+    wo = write_opens(ck, fo)
+    wopen = wo["object"]
+    writers = pointer_writers(ck) - {fo.fi.name}
+    # publication of the pointer: a call of a method that writes it, or the pointer write itself when it is inlined
+    pub_calls = [c for c in fo.calls() if A.call_attr(c) in writers and A.dotted(A.call_recv(c)) in ("self", "cls")]
+    pub = pub_calls + wo["pointer"] + _atomic_publications(fo)
+    holds_object = lambda w: any(any(x is c for x in ast.walk(it.context_expr)) for it in w.items for c in wopen)
+    holds_pointer = lambda w: any(any(x is c for x in ast.walk(it.context_expr)) for it in w.items for c in wo["pointer"])
+    # the statements that put bytes into the object (not the write of the pointer's own content)
+    copy = [c for c in fo.calls("copyfileobj") + fo.calls("write") if not any(holds_pointer(w) for w in _with_ancestors(fo, c))]
     okm = bool(mk) and bool(wopen) and all(fo.cfg.must_pass(fo.nodes_all(mk), i) for i in fo.nodes_all(wopen))
     ck.ob(R, fo.key(None, "mkdir-before-open"), okm, "version directory created before the object is opened" if okm else
           "the object can be opened before its version directory exists", fo.where())
     okp = bool(pub) and bool(copy) and all(fo.cfg.must_pass(fo.nodes_all(copy), i) for i in fo.nodes_all(pub))
-    # and the publication is outside the `with` that holds the object open
+    # and the publication is outside every `with` that holds the object open
     for p in pub:
-        w = fo.enclosing(p, ast.With)
-        if w is not None and any(c in list(ast.walk(w)) for c in wopen):
+        if any(holds_object(w) for w in _with_ancestors(fo, p)):
             okp = False
+    # an object opened without a `with` must be closed before the publication
+    for c in wopen:
+        if not any(holds_object(w) for w in _with_ancestors(fo, c)):
+            closes = fo.calls("close")
+            if not (closes and all(fo.cfg.must_pass(fo.nodes_all(closes), i) for i in fo.nodes_all(pub))):
+                okp = False
     ck.ob(R, fo.key(None, "object-before-pointer"), okp, "the object is written and closed before the pointer is published" if okp else
           "the pointer can be published before the object is completely written and closed: a crash leaves a pointer to partial data", fo.where())
     # pointer designates the object just written
-    for p in pub:
+    wp = [c for c in fo.calls(OBJ_PATH)]
+    for p in pub_calls:
         # the same value that named the path the bytes were written to
-        wp = [c for c in fo.calls("_get_path_versioned")]
         okv = len(p.args) == 1 and isinstance(p.args[0], ast.Name) and "call:uuid4" in fo.deps(p.args[0]) and \
             any(len(c.args) == 1 and isinstance(c.args[0], ast.Name) and c.args[0].id == p.args[0].id
                 and all(fo.df.same_defs(p.args[0].id, a, b) for a in fo.nodes(c) for b in fo.nodes(p)) for c in wp)
+        if not okv and len(p.args) == 1 and fo.nodes(p):
+            # spelled differently: the argument and the versioned path's key are the same fresh value
+            at = fo.nodes(p)[0]
+            okv = "call:uuid4" in fo.deps(p.args[0]) and any(
+                len(c.args) == 1 and fo.nodes(c) and _same_value(fo, c.args[0], fo.nodes(c)[0], p.args[0], at) for c in wp)
+        ck.ob(R, fo.key(None, "pointer-target"), okv, "the pointer designates the version just written" if okv else
+              "the published pointer does not designate the version just written", fo.where(p))
+    for p in wo["pointer"]:
+        # inlined pointer write: what is written into it is the very path the object was written to
+        w = [x for x in _with_ancestors(fo, p) if holds_pointer(x)]
+        wr = [c for c in fo.calls("write") if w and fo.inside(c, w[0]) and c.args]
+        okv = bool(wr) and bool(wopen)
+        for c in wr:
+            for o in wopen:
+                if not (fo.nodes(c) and fo.nodes(o) and "call:uuid4" in fo.deps(c.args[0]) and
+                        _same_value(fo, _strip_path_wrappers(c.args[0]), fo.nodes(c)[0], _strip_path_wrappers(open_path(o)), fo.nodes(o)[0])):
+                    okv = False
         ck.ob(R, fo.key(None, "pointer-target"), okv, "the pointer designates the version just written" if okv else
               "the published pointer does not designate the version just written", fo.where(p))
     wl = FA(ck, FSDS + "._write_non_versioned_link")
-    wr = [c for c in wl.calls("write")]
-    okw = bool(wr) and all("call:_get_path_versioned" in wl.deps(c.args[0]) for c in wr if c.args)
+    wlo = write_opens(ck, wl)["pointer"]
+    wr = [c for c in wl.calls("write") if any(any(any(x is o for x in ast.walk(it.context_expr)) for it in w.items for o in wlo)
+                                               for w in _with_ancestors(wl, c))] or [c for c in wl.calls("write")]
+    okw = bool(wr) and all("call:" + OBJ_PATH in wl.deps(c.args[0]) for c in wr if c.args)
     ck.ob(R, wl.key(None, "pointer-content"), okw, "pointer content is the versioned object path" if okw else
           "the pointer file does not contain the versioned object path", wl.where())
+
+
+def _same_value(fa, e1, n1, e2, n2):
+    """Do two local names / expressions denote the same value: the same reaching definitions (through plain
+    aliases), or — for expressions — the same name-independent text built from single definitions that
+    contains no call (a call evaluated twice need not return the same thing)."""
+    from .c07 import _roots
+    e1, e2 = _strip_path_wrappers(e1), _strip_path_wrappers(e2)
+    if isinstance(e1, ast.Name) and isinstance(e2, ast.Name):
+        r1, r2 = _roots(fa, e1, n1), _roots(fa, e2, n2)
+        return bool(r1) and r1 == r2
+    if not isinstance(e1, ast.Name) and not isinstance(e2, ast.Name):
+        if any(isinstance(x, ast.Call) for x in list(ast.walk(e1)) + list(ast.walk(e2))):
+            return False
+        return fa.xnorm(e1, n1) == fa.xnorm(e2, n2)
+    return False
 
 
 def check_pointer_trust(ck):
@@ -107,17 +237,9 @@ def check_pointer_trust(ck):
                "atomic rename, or every consumer of a pointer's content opens the designated path or is dominated by "
                "a regular-file test of that path (an existence test is not enough: an empty pointer designates '.')", 3)
     wl = FA(ck, FSDS + "._write_non_versioned_link")
-    opens = [c for c in wl.calls("open") if c in ck.cg.fs_write_sites.get(wl.qual, [])]
-    link_names = set()
-    for s in wl.stmts(ast.Assign):
-        if isinstance(s.value, ast.Call) and A.call_attr(s.value) == "_get_non_versioned_link_path":
-            for t in s.targets:
-                if isinstance(t, ast.Name):
-                    link_names.add(t.id)
-    direct = [c for c in opens if set(A.names_in(c.args[0] if c.args else c)) & link_names or
-              (A.call_recv(c) is not None and set(A.names_in(A.call_recv(c))) & link_names)]
-    renames = [c for c in wl.calls("replace") + wl.calls("rename") if (A.call_dotted(c) or "").startswith("os.")
-               and len(c.args) == 2 and set(A.names_in(c.args[1])) & link_names]
+    # by role: a write-mode open of the link path itself / an os.replace whose destination is the link path
+    direct = write_opens(ck, wl)["pointer"]
+    renames = _atomic_publications(wl)
     atomic = not direct and bool(renames)
     ex = FA(ck, FSDS + ".exists_nonversioned")
     rd = [c for c in ex.calls("_read_non_versioned_link")]
